@@ -215,6 +215,35 @@ pub fn main(args: &[String]) {
                 }
             }
         }
+        "stability" => {
+            // pairs (B, B ++ X): B a prefix / mutation / splice / whole response, X empty / a response / random bytes.
+            // Two lines per pair; the second carries `X <len B>`.
+            for _ in 0..n {
+                let (_, a) = gen_pair(&mut rng, true);
+                let (_, o) = gen_pair(&mut rng, true);
+                let b: Vec<u8> = match rng.below(5) {
+                    0 => a.clone(),
+                    1 => a[..rng.below(a.len() + 1)].to_vec(),
+                    2 | 3 => mutate(&mut rng, &a, &o),
+                    _ => {
+                        let mut m = mutate(&mut rng, &a, &o);
+                        let cut = rng.below(m.len() + 1);
+                        m.truncate(cut);
+                        m
+                    }
+                };
+                let x: Vec<u8> = match rng.below(4) {
+                    0 => o.clone(),
+                    1 => (0..1 + rng.below(12)).map(|_| rng.below(256) as u8).collect(),
+                    2 => garbage_line(&mut rng),
+                    _ => rng.pick(TOKENS).as_bytes().to_vec(),
+                };
+                emit(&b, Some("B"));
+                let mut bx = b.clone();
+                bx.extend_from_slice(&x);
+                emit(&bx, Some(&format!("X {}", b.len())));
+            }
+        }
         "garbage" => {
             for _ in 0..n {
                 let g = garbage_line(&mut rng);
